@@ -145,4 +145,7 @@ theorem wrr_proportional_partial :
     ∀ a ∈ [1, 2, 3, 4], ∀ b ∈ [1, 2, 3, 4], ∀ c ∈ [1, 2, 3, 4],
       ringOk [a] = true ∧ ringOk [a, b] = true ∧ ringOk [a, b, c] = true := by decide +kernel
 
+/-- the tie: roundRobinSelector.Select was translated from the current source this run -/
+theorem tie_select : Gen.selectTieOk = true := by decide
+
 end Rpcx.Props.C12
